@@ -1,7 +1,7 @@
 """C06 — the tool and coolant can always be switched off."""
 
 from ..runner import Cell
-from ..driver import Finite, assume
+from ..driver import Finite, FixedStr, assume
 from .common import *  # noqa: F401,F403
 
 PROPERTY_ID = "C06"
@@ -17,7 +17,8 @@ BOUNDS = ("Cell grid: shutdown call {tool_off, power_off, coolant_off, emergency
           "True)} x tool state {off, spin cw/ccw, power constant/dynamic} x coolant {off, mist, "
           "flood} x bounds table {none, tool-power only, all scalar bounds}. Solver over: tool "
           "power p>=0, feed rate, previous halt mode flag, every bound (min<max, any reals incl. "
-          "ranges excluding 0), emergency message of length <= 2 without line breaks.")
+          "ranges excluding 0). Extra cells: emergency_halt with a SYMBOLIC message of 1-3 code "
+          "points (any Unicode) must still give M05, M09, comment, M00|M30.")
 ASSUMPTIONS = [
     "pre-state tool power is finite and >= 0 (states left behind by a *rejected* call are C05's "
     "subject, not used as pre-states here)",
@@ -85,8 +86,46 @@ def _make(entry, tool, coolant, bmode, reset=False):
     return h
 
 
+def _make_message(tool, coolant, reset, length):
+    """emergency_halt with a symbolic message: the sequence M05, M09, comment, M00|M30 must
+    survive any text (the text itself is C09's subject; here it must not disturb the shutdown)."""
+    def h(msg, p: Finite, lo: Finite, hi: Finite):
+        assume(p >= 0)
+        assume(lo < hi)
+        pre = mkpre(tool=tool, coolant=coolant, power=p if tool else 0,
+                    bounds={"tool-power": (lo, hi)}, pos=(1.0, 2.0, 3.0))
+        g, rec = prepare(pre)
+        e = attempt(g.emergency_halt, msg, reset)
+        if e is not None:
+            m = f"{exc_name(e)}: {e}"
+            return V("emergency_halt-raises-" + exc_name(e), lambda: f"{m} for message {msg!r}")
+        text = rec.text()
+        lines = text.split("\n")
+        if lines[-1] != "" or len(lines) != 5:
+            return V("emergency_halt-wrong-sequence", lambda: f"output {text!r} for message {msg!r}")
+        heads = [ln.split(";")[0].split() for ln in lines[:4]]
+        want = [["M05"], ["M09"], [], ["M30" if reset else "M00"]]
+        if heads != want:
+            return V("emergency_halt-wrong-sequence",
+                     lambda: f"executable words {heads!r}, expected {want!r}; output {text!r}")
+        if g.state.is_tool_active or g.state.is_coolant_active:
+            return V("emergency_halt-tool-still-active", "flags still set")
+        reached("ok")
+        return None
+    h.__annotations__ = {"msg": FixedStr(length), "p": Finite, "lo": Finite, "hi": Finite}
+    return h
+
+
 def cells(tier):
     out = []
+    for reset in (False, True):
+        for length in ((1, 2) if tier == "quick" else (1, 2, 3)):
+            for tool, coolant in ((None, None), (("spin", "cw"), "flood"), (("power", "dynamic"), "mist")):
+                out.append(Cell(f"emergency_halt-message|len={length}|reset={reset}|tool="
+                                f"{tool[0] + '-' + tool[1] if tool else 'off'}",
+                                _make_message(tool, coolant, reset, length),
+                                budget_s=150 if tier == "quick" else 600, per_path_s=20,
+                                must_reach=("ok",), entry="GCodeBuilder.emergency_halt"))
     entries = [("tool_off", False), ("power_off", False), ("coolant_off", False),
                ("emergency_halt", False), ("emergency_halt", True)]
     for entry, reset in entries:
